@@ -191,6 +191,9 @@ pub fn check_l2(vm: &mut VM, prog: &Program, layout: &Layout) -> (L2Verdict, Str
     if rr.stop == Stop::RetWithoutCall {
         classes.push("c08/ret-without-call-stops-run".to_string());
     }
+    if flat.labels.keys().any(|l| flat.procs.contains_key(l)) {
+        classes.push("c08/label-shares-a-procedure-name".to_string());
+    }
     let nt = f.backward_jump || f.call_depth2 || f.label_adjacent_special || f.repeated_call;
     (L2Verdict::Pass { nontrivial: nt, classes }, rendered.text)
 }
@@ -401,7 +404,7 @@ pub fn run(ctx: &Ctx) {
     } else {
         ctx.harness_error("CLI binary not built");
     }
-    for c in ["c08/backward-jump-taken", "c08/call-depth>=2", "c08/label-adjacent-to-proc-print-or-eof", "c08/same-proc-called-twice", "c08/ret-without-call-stops-run"] {
+    for c in ["c08/backward-jump-taken", "c08/call-depth>=2", "c08/label-adjacent-to-proc-print-or-eof", "c08/same-proc-called-twice", "c08/ret-without-call-stops-run", "c08/label-shares-a-procedure-name"] {
         ctx.require_class(c, 20);
     }
 }
